@@ -29,6 +29,9 @@ def seeded_table():
         if not mp.exists():
             continue
         m = json.loads(mp.read_text())
+        if m.get("obsolete"):
+            out.append(f"| `{m['id']}` | {m['property']} | obsolete: no longer breaks the property on the repaired tree | {(m.get('note_first_lines') or '').replace(chr(10), ' ').replace('|', '/')[:170]} |")
+            continue
         res = (m.get("check_results", {}).get("quick", {}) or {}).get(m["property"], {})
         rc = res.get("rc")
         if rc == 1 and res.get("with_failing_input", 0) > 0:
